@@ -432,7 +432,7 @@ func runCase(ops []string, forced []string, em *emitter) {
 			wkS, _ := proto.KV(w, "workers")
 			ms, err1 := strconv.Atoi(msS)
 			wk, err2 := strconv.Atoi(wkS)
-			if (kind != "metrics" && kind != "queue" && kind != "all") || err1 != nil || err2 != nil || ms < 1 || ms > 5000 || wk < 1 || wk > 16 {
+			if (kind != "metrics" && kind != "queue" && kind != "all") || err1 != nil || err2 != nil || ms < 1 || ms > 2000 || wk < 1 || wk > 16 {
 				break
 			}
 			if !loaded {
@@ -443,7 +443,10 @@ func runCase(ops []string, forced []string, em *emitter) {
 				break
 			}
 			ans = guarded(func() string {
-				eng.stress(kind, ms, wk)
+				if !eng.stress(kind, ms, wk) {
+					em.line("K stress-" + kind + "-stuck")
+					return "timeout"
+				}
 				em.line("K stress-" + kind)
 				return "done"
 			})
